@@ -279,6 +279,7 @@ func c17Overlap(w *W, r *rand.Rand, a, b c17List, kind string) {
 		desc := func() string {
 			return fmt.Sprintf("A (%d elements, passed as %v) = %s\nB (%d elements, passed as %v) = %s\noptions: %s", a.len(), pa, firstN(valText(a.value()), 700), b.len(), pb, firstN(valText(b.value()), 700), opts)
 		}
+		w.Sample("overlap-"+kind, fmt.Sprintf("(overlap A B) with |A|=%d passed as %v, |B|=%d passed as %v, options %s; A=%s B=%s", a.len(), pa, b.len(), pb, opts, firstN(valText(a.value()), 120), firstN(valText(b.value()), 120)))
 		ab := c17Exec(w, Op("overlap", TBool, na, nb), consts, vals, opts)
 		ba := c17Exec(w, Op("overlap", TBool, nb, na), consts, vals, opts)
 		if a.len()+b.len() >= 100 || a.len() == 0 || b.len() == 0 {
@@ -366,6 +367,7 @@ func c17In(w *W, r *rand.Rand, l c17List, isS bool) {
 				vn = Lit(p.v)
 			}
 			opts := []OptSet{OptNone, OptAll}[r.Intn(2)]
+			w.Sample("in", fmt.Sprintf("(in %s L) with |L|=%d passed as %s, options %s", valText(p.v), n, []string{"literal", "variable", "pre-built set", "constant"}[pass], opts))
 			o := c17Exec(w, Op("in", TBool, vn, ln), consts, vals, opts)
 			if p.want {
 				w.Inc("in_true")
